@@ -44,6 +44,9 @@ type c19Case struct {
 	Twice    bool       `json:"twice,omitempty"` // prepare, then re-prepare with the second geometry (same source object)
 	Devs2    []c19Dev   `json:"devs2,omitempty"`
 	Write    bool       `json:"write,omitempty"`
+	// ActiveList (lancero): the card list as a client sends it to Configure - the cards of Devs in some order, possibly with one
+	// card named twice; then the real Configure decides which devices take part
+	ActiveList []int `json:"active_list,omitempty"`
 }
 
 type c19Truth struct { // what the statement says about stream i
@@ -328,6 +331,65 @@ func c19Run(c c19Case) (v vVerdict) {
 			ls.firstRowChanNum, ls.chanSepCards, ls.chanSepColumns = c.FirstRow, c.SepCards, c.SepCols
 			return ls.PrepareChannels(), c19LanceroTruth(devs)
 		}
+		if len(c.ActiveList) > 0 {
+			// through the real Configure: a card named twice must be refused there - or at the latest not lead to colliding streams
+			rows := c.Devs[0].Rows
+			byNum := map[int]c19Dev{}
+			for _, d := range c.Devs {
+				if d.Rows != rows || d.Cols < 1 || d.Cols > 32 || rows < 1 || rows > 256 || d.Devnum < 0 {
+					return v // Configure gives every card the sequence length of the globals file
+				}
+				byNum[d.Devnum] = d
+				ls.devices[d.Devnum] = &LanceroDevice{devnum: d.Devnum}
+			}
+			dup := false
+			seen := map[int]bool{}
+			for _, n := range c.ActiveList {
+				if _, ok := byNum[n]; !ok {
+					return v
+				}
+				if seen[n] {
+					dup = true
+				}
+				seen[n] = true
+			}
+			cg := filepath.Join(root, "cringeGlobals.json")
+			os.MkdirAll(root, 0o755)
+			os.WriteFile(cg, []byte(fmt.Sprintf(`{"SETT":1,"seqln":%d,"lsync":20000,"testpattern":0,"propagationdelay":0,"NSAMP":4,"carddelay":0,"XPT":0}`, rows)), 0o644)
+			oldPath := cringeGlobalsPath
+			cringeGlobalsPath = cg
+			cerr := ls.Configure(&LanceroSourceConfig{FiberMask: 0xffff, ActiveCards: append([]int(nil), c.ActiveList...), FirstRow: c.FirstRow, ChanSepCards: c.SepCards, ChanSepColumns: c.SepCols})
+			cringeGlobalsPath = oldPath
+			if cerr != nil {
+				if !dup {
+					return vFailf("configure-rejected", "Configure refused the card list %v (no card named twice): %v", c.ActiveList, cerr)
+				}
+				v.Classes = append(v.Classes, "duplicate-card-refused")
+				return v
+			}
+			var devs []c19Dev
+			ls.nchan = 0
+			for _, dev := range ls.active {
+				d := byNum[dev.devnum]
+				dev.ncols, dev.nrows = d.Cols, d.Rows
+				ls.nchan += 2 * d.Cols * d.Rows
+				devs = append(devs, d)
+			}
+			perr := ls.PrepareChannels()
+			if perr != nil {
+				v.Classes = append(v.Classes, "rejected")
+				return v
+			}
+			if dup {
+				v.Classes = append(v.Classes, "duplicate-card-accepted")
+			}
+			if f := c19CheckTables(&ls.AnySource, c19LanceroTruth(devs), true); f != nil {
+				f.Msg = fmt.Sprintf("card list %v accepted by Configure: %s", c.ActiveList, f.Msg)
+				return *f
+			}
+			v.Classes = append(v.Classes, "through-configure")
+			return v
+		}
 		err, truth := prepare(c.Devs)
 		if truth == nil {
 			return v
@@ -395,6 +457,15 @@ func c19Run(c c19Case) (v vVerdict) {
 			return vFailf("harness", "%v", err)
 		}
 		as.producers = []PacketProducer{pr}
+		if c.Twice {
+			// an earlier run of the same source object that ended by itself (time-out, error block): nobody called Stop, the
+			// client just configures and starts again - the identity tables must describe the new run only
+			if as.Sample() == nil {
+				as.PrepareChannels()
+				v.Classes = append(v.Classes, "reprepared")
+			}
+			as.producers = []PacketProducer{&c03Producer{sample: pr.sample}}
+		}
 		err = as.Sample()
 		// do two different groups share a channel number?
 		overlap := false
@@ -530,6 +601,23 @@ func c19Gen(t *rapid.T) c19Case {
 			c.Twice = true
 			c.Devs2 = c19GenDevs(t, "b")
 		}
+		sameRows := true
+		for _, d := range c.Devs {
+			if d.Rows != c.Devs[0].Rows {
+				sameRows = false
+			}
+		}
+		if sameRows && rapid.IntRange(0, 3).Draw(t, "viaconfigure") == 0 {
+			for _, d := range c.Devs {
+				c.ActiveList = append(c.ActiveList, d.Devnum)
+			}
+			c.ActiveList = rapid.Permutation(c.ActiveList).Draw(t, "cardorder")
+			if rapid.IntRange(0, 1).Draw(t, "dupcard") == 0 {
+				d := rapid.SampledFrom(c.ActiveList).Draw(t, "dupwhich")
+				at := rapid.IntRange(0, len(c.ActiveList)).Draw(t, "dupat")
+				c.ActiveList = append(c.ActiveList[:at], append([]int{d}, c.ActiveList[at:]...)...)
+			}
+		}
 		c.Write = rapid.IntRange(0, 2).Draw(t, "write") == 0
 	case k < 9:
 		c.Kind = "abaco"
@@ -559,6 +647,7 @@ func c19Gen(t *rapid.T) c19Case {
 			c.Groups = append(c.Groups, g)
 		}
 		c.Groups = rapid.Permutation(c.Groups).Draw(t, "order")
+		c.Twice = rapid.IntRange(0, 2).Draw(t, "abacotwice") == 0
 		c.Write = rapid.IntRange(0, 2).Draw(t, "write") == 0
 	default:
 		c.Kind = "roach"
